@@ -1,6 +1,6 @@
 ---- MODULE MC_Gen_C08 ----
 EXTENDS Gen_C08
 McOvChoices == { <<>>, << <<"S1A2", 4>> >>, << <<"S1A1", 2>>, <<"S1F4", 4>>, <<"S2C3", 2>>, <<"S1B2", 4>> >> }
-McQCoords == {"S1C1", "S1D2", "S1F4", "S2A1", "S1B2", "S1E1"}
+McQCoords == {"S1C1", "S1D2", "S1F4", "S2A1", "S1B2", "S1E1", "S2D1"}
 McQLists == { <<"S1A1", "S1D1", "S2B1">>, <<"S1C1", "S1C1", "S1A2">> }
 ====
